@@ -38,6 +38,8 @@ class C04(FragHarness, WrapHarness):
                         'n': 2 if q else 3, 'ind': 'ii', 'imax': 1, 'icl': (1, 3)})
             out.append({'entry': 'fill_inplace', 'feat': feat, 'gen': 'sym1', 'n': 4 if q else 5})
             out.append({'entry': 'fill_inplace', 'feat': feat, 'gen': 'symall', 'n': 2 if q else 3})
+            out.append({'entry': 'fill_inplace', 'feat': feat, 'gen': 'alpha', 'alphabet': ['\r', '\n', ' ', 'a', '\u00e9'],
+                        'n': 5 if q else 6})
             out.append({'entry': 'unfill', 'feat': feat, 'gen': 'sym1', 'n': 4 if q else 5})
             out.append({'entry': 'unfill', 'feat': feat, 'gen': 'symall', 'n': 3})
             out.append({'entry': 'refill', 'feat': feat, 'gen': 'sym1', 'n': 3 if q else 4, 'algo': 'F', 'sep': 'A',
